@@ -584,7 +584,8 @@ pub fn check_outputs(model: &Model, t: &tera::Tera, i: usize, stats: &mut Stats,
         if let (Ok(wb), Ok(gb)) = (g.render_block(name), crate::common::catch(|| t.render_block(name, "b", &ctx))) {
             if let Ok(gb) = gb {
                 if want.is_ok() && wb != gb {
-                    out.violations.push(Violation::new("C11", "render_block-differs-from-graph-model", format!("after op {}: render_block({}, b) = {:?}, model {:?}", i, name, crate::engine::trunc(&gb), crate::engine::trunc(&wb))));
+                    // (block text by name is C04's clause; which template an include reaches is C11's)
+                    out.violations.push(Violation::new("C04", "render_block-differs-from-graph-model", format!("after op {}: render_block({}, b) = {:?}, model {:?}", i, name, crate::engine::trunc(&gb), crate::engine::trunc(&wb))));
                 }
             }
         }
